@@ -39,9 +39,9 @@ pub proof fn pf_markup_ws(n: &SyntaxNode)
 /// PF7: trailing trivia is never part of a nested piece of markup (the body of a content block, strong/emph, heading or list
 /// item): only the document itself can end with a line comment
 #[verifier::external_body]
-pub proof fn pf_nested_markup(parent: &SyntaxNode)
-    requires tree_wf(parent),
-    ensures forall|j: int| 0 <= j < parent.children_s().len() && (#[trigger] parent.children_s()[j]).kind_s() == SyntaxKind::Markup ==> !last_is_lc(parent.children_s()[j].children_s()),
+pub proof fn pf_nested_markup(m: &SyntaxNode)
+    requires tree_wf(m), m.kind_s() == SyntaxKind::Markup, !is_doc_root(m),
+    ensures !last_is_lc(m.children_s()),
 {}
 
 pub proof fn lemma_toks_of_push<'a>(s: Seq<&'a SyntaxNode>, n: &'a SyntaxNode)
@@ -106,3 +106,91 @@ pub proof fn lemma_toks_of_run<'a>(ch: Seq<&'a SyntaxNode>, a: int, b: int)
     assert forall|k: int| 0 <= k < s.len() implies !is_break_child(#[trigger] s[k]) by { assert(s[k] == ch[a + k]); }
     lemma_toks_of_nodes(s);
 }
+
+// ---- index view of the flattened representation (every child stands for exactly one entry) ----
+pub open spec fn tok1<'a>(n: &'a SyntaxNode) -> MTok<'a> { if is_break_child(n) { MTok::Brk(brk_count(n)) } else { MTok::Node(n) } }
+pub open spec fn breaks_counted(ch: Seq<&SyntaxNode>) -> bool {
+    forall|j: int| 0 <= j < ch.len() && (#[trigger] ch[j]).kind_s() == SyntaxKind::Parbreak ==> count_newlines_s(ch[j].text_s()) >= 2
+}
+pub proof fn lemma_toks_of_index<'a>(s: Seq<&'a SyntaxNode>)
+    requires breaks_counted(s),
+    ensures toks_of(s).len() == s.len(), forall|g: int| 0 <= g < s.len() ==> #[trigger] toks_of(s)[g] == tok1(s[g]),
+    decreases s.len(),
+{
+    reveal_with_fuel(toks_of, 2);
+    if s.len() > 0 {
+        let p = s.drop_last();
+        assert forall|j: int| 0 <= j < p.len() && (#[trigger] p[j]).kind_s() == SyntaxKind::Parbreak implies count_newlines_s(p[j].text_s()) >= 2 by { assert(p[j] == s[j]); }
+        lemma_toks_of_index(p);
+        assert(child_toks(s.last()) =~= seq![tok1(s.last())]);
+        assert forall|g: int| 0 <= g < s.len() implies #[trigger] toks_of(s)[g] == tok1(s[g]) by { if g < p.len() { assert(p[g] == s[g]); } }
+    }
+}
+/// the flattened representation, entry by entry: the children between the edges, then (possibly) what is left of a trailing break
+pub proof fn lemma_flat_index<'a>(ch: Seq<&'a SyntaxNode>)
+    requires breaks_counted(ch),
+    ensures
+        markup_flat(ch).len() == markup_mid(ch).len() + markup_tail(ch).len(),
+        markup_tail(ch).len() <= 1,
+        forall|g: int| 0 <= g < markup_mid(ch).len() ==> #[trigger] markup_flat(ch)[g] == tok1(ch[markup_lead(ch) + g]),
+        forall|g: int| markup_mid(ch).len() <= g < markup_flat(ch).len() ==> (#[trigger] markup_flat(ch)[g]) is Brk,
+{
+    let mid = markup_mid(ch);
+    assert forall|j: int| 0 <= j < mid.len() && (#[trigger] mid[j]).kind_s() == SyntaxKind::Parbreak implies count_newlines_s(mid[j].text_s()) >= 2 by { assert(mid[j] == ch[markup_lead(ch) + j]); }
+    lemma_toks_of_index(mid);
+    assert forall|g: int| 0 <= g < mid.len() implies #[trigger] markup_flat(ch)[g] == tok1(ch[markup_lead(ch) + g]) by { assert(markup_flat(ch)[g] == toks_of(mid)[g]); assert(mid[g] == ch[markup_lead(ch) + g]); }
+}
+/// a re-emitted node is a child of the markup (and not one of its line-ending children)
+pub proof fn lemma_flat_node<'a>(ch: Seq<&'a SyntaxNode>, g: int)
+    requires breaks_counted(ch), 0 <= g < markup_flat(ch).len(), markup_flat(ch)[g] is Node,
+    ensures
+        g < markup_mid(ch).len(), 0 <= markup_lead(ch) + g < ch.len(),
+        markup_flat(ch)[g] == MTok::Node(ch[markup_lead(ch) + g]), !is_break_child(ch[markup_lead(ch) + g]),
+{
+    lemma_flat_index(ch);
+}
+/// what follows a line comment: a run of line breaks, or the edge (where a trailing break child, if any, was taken off)
+pub proof fn lemma_flat_after_lc<'a>(ch: Seq<&'a SyntaxNode>, g: int)
+    requires
+        breaks_counted(ch), lc_followed_markup(ch),
+        0 <= g < markup_flat(ch).len(), markup_flat(ch)[g] is Node, markup_flat(ch)[g]->Node_0.kind_s() == SyntaxKind::LineComment,
+    ensures
+        g + 1 < markup_flat(ch).len() ==> markup_flat(ch)[g + 1] is Brk,
+        g + 1 == markup_flat(ch).len() ==> last_is_lc(ch) || (markup_trail(ch) == 1 && is_break_child(ch.last())),
+{
+    lemma_flat_index(ch);
+    let lead = markup_lead(ch);
+    let j = lead + g;
+    assert(g < markup_mid(ch).len());
+    assert(markup_flat(ch)[g] == tok1(ch[j]));
+    assert(ch[j].kind_s() == SyntaxKind::LineComment);
+    if j + 1 < ch.len() {
+        assert(is_nl_space_or_parbreak(ch[j + 1]));
+        assert(is_break_child(ch[j + 1]));
+        if g + 1 < markup_mid(ch).len() {
+            assert(markup_flat(ch)[g + 1] == tok1(ch[lead + (g + 1)]));
+        } else {
+            assert(markup_trail(ch) == 1 && j + 1 == ch.len() - 1);
+        }
+    } else {
+        assert(ch.last() == ch[j]);
+    }
+}
+
+/// C08: what the markup engine must emit for one entry of the flattened representation
+pub open spec fn markup_piece_ok(store: AttrStore, t: MTok, d: DocV) -> bool {
+    match t {
+        MTok::Brk(n) => d == repeat_doc(DocV::Hardline, n),
+        MTok::Node(c) => {
+            &&& (c.kind_s() == SyntaxKind::Space ==> d == sp())
+            &&& (c.kind_s() == SyntaxKind::Text ==> d == txt(c.full_text_s()))
+            &&& (c.kind_s() == SyntaxKind::LineComment ==> d == txt(c.text_s()))
+            &&& (!ast::expr_kind(c.kind_s()) && !is_comment_kind(c.kind_s()) && c.kind_s() != SyntaxKind::Space ==> d == txt(c.text_s()))
+            &&& (is_exact_leaf_kind(c.kind_s()) && !store.disabled_s(c.span_s()) ==> d == txt(c.text_s()))
+            &&& (store.disabled_s(c.span_s()) && ast::expr_kind(c.kind_s()) && c.kind_s() != SyntaxKind::Text ==> d == txt(c.full_text_s()))
+        },
+    }
+}
+/// the only things the engine may put at the outer edges of a piece of markup
+pub open spec fn edge_doc(d: DocV) -> bool { d == DocV::Nil || d == DocV::Hardline || d == DocV::LineSoft || d == DocV::Line || d == sp() }
+pub open spec fn is_single_space(ch: Seq<&SyntaxNode>) -> bool { ch.len() == 1 && ch[0].kind_s() == SyntaxKind::Space }
